@@ -155,10 +155,13 @@ pub fn c04_tables(seed: u64, first_id: usize, n: usize) -> Vec<Case> {
         let nf = rng.range(1, hi);
         let mut fns = vec![];
         let mut slot = 0usize;
+        let mut gaps: Vec<usize> = vec![];
         for k in 0..nf {
             let mut f = func(&mut rng, &format!("v{k}"), Some(None), 7, 5);
             if rng.chance(1, 4) {
-                slot += rng.range(1, 3);
+                let jump = rng.range(1, 3);
+                gaps.extend(slot..slot + jump);
+                slot += jump;
                 f.attributes.0.push(Attribute::index(slot));
             } else if rng.chance(1, 5) {
                 f.attributes.0.push(Attribute::index(slot));
@@ -167,6 +170,15 @@ pub fn c04_tables(seed: u64, first_id: usize, n: usize) -> Vec<Case> {
             fns.push(f);
         }
         let size = rng.chance(1, 3).then(|| slot + rng.below(4));
+        gaps.extend(slot..size.unwrap_or(slot));
+        if i % 5 == 2 && !gaps.is_empty() {
+            // hostile: a function that carries the generated name of a placeholder slot, one
+            // that is filled before or after it; whatever is accepted must still have every
+            // function in its declared slot and every gap filled
+            let g = *rng.pick(&gaps);
+            let k = rng.below(fns.len());
+            fns[k].name = Ident(format!("_vfunc_{g}"));
+        }
         if i % 9 == 4 {
             // hostile: a virtual function that also claims a fixed address; if that is accepted
             // at all, the wrapper still has to go through the object's table
@@ -958,7 +970,31 @@ pub fn negatives(ctx: &mut Ctx, prop: &str) {
         }
         "C06" => {
             for ptrw in [4usize, 8] {
+                // the compatible derived type of the current (family, depth): every mutant is
+                // also built NEXT TO it (a sibling over the same base, named so that it sorts
+                // before or after, declared before or after), several times because the order
+                // in which the two are checked follows the hash order of the build
+                let mut good_d: Option<ItemDefinition> = None;
+                let mut prev_compatible = false;
                 for (kind, mods, ptrw) in c06_mutants(ptrw) {
+                    if kind == "compatible" && !prev_compatible {
+                        good_d = mods[0].1.definitions.iter().find(|d| d.name.0 == "D").cloned();
+                    }
+                    prev_compatible = kind == "compatible";
+                    if kind != "compatible" {
+                        if let Some(g) = &good_d {
+                            for (name, first) in [("Aaa", true), ("Zzz", false), ("Zzz", true), ("Aaa", false)] {
+                                let mut sib = g.clone();
+                                sib.name = Ident(name.into());
+                                let mut m = mods[0].1.clone();
+                                let at = if first { m.definitions.iter().position(|d| d.name.0 == "D").unwrap_or(0) } else { m.definitions.len() };
+                                m.definitions.insert(at, sib);
+                                for _ in 0..3 {
+                                    must_reject(ctx, prop, &format!("{kind}+compatible-sibling"), vec![(mods[0].0.clone(), m.clone())], ptrw);
+                                }
+                            }
+                        }
+                    }
                     if kind == "compatible" {
                         ctx.eval();
                         let out = drive::build_modules(&mods, ptrw, Opts::default());
